@@ -44,14 +44,14 @@ func PathFor(in interface{}) (string, error) {
 		return join(s.ToPath()), nil
 	}
 
-	ni, err := name.Interface(in)
-	if err != nil {
-		return "", err
-	}
-
 	rv := reflect.Indirect(reflect.ValueOf(in))
 	if !rv.IsValid() {
 		return "", errors.New("can not calculate path to a nil pointer")
+	}
+
+	ni, err := name.Interface(in)
+	if err != nil {
+		return "", err
 	}
 
 	to := rv.Type()
